@@ -1,13 +1,14 @@
 #!/usr/bin/env bash
 # builds cfgrun once per rrtk feature configuration (in parallel), against /repo's working tree
 set -u
-. /verif/tools/cfg_list.sh
-cd /verif/cfgrun || exit 2
+R="${VERIF_ROOT:-/verif}"
+. "$R/tools/cfg_list.sh"
+cd "$R/cfgrun" || exit 2
 [ -f Cargo.lock ] || { echo "cfgrun/Cargo.lock missing"; exit 2; }
 pids=()
 for c in "${CFGS[@]}"; do
   IFS='|' read -r name feats prof chk fam <<<"$c"
-  ( cargo build --offline --profile "$prof" --no-default-features --features "$feats" --target-dir "/verif/work/target-cfg/$name" >"/verif/work/build-cfg-$name.log" 2>&1 ) &
+  ( cargo build --offline --profile "$prof" --no-default-features --features "$feats" --target-dir "$R/work/target-cfg/$name" >"$R/work/build-cfg-$name.log" 2>&1 ) &
   pids+=($!)
 done
 rc=0
@@ -15,7 +16,7 @@ i=0
 for p in "${pids[@]}"; do
   if ! wait "$p"; then
     IFS='|' read -r name rest <<<"${CFGS[$i]}"
-    echo "cfgrun build failed for configuration $name"; tail -n 25 "/verif/work/build-cfg-$name.log"; rc=2
+    echo "cfgrun build failed for configuration $name"; tail -n 25 "$R/work/build-cfg-$name.log"; rc=2
   fi
   i=$((i+1))
 done
